@@ -17,7 +17,6 @@ Qed.
 
 Arguments lookup_def : simpl never.
 Arguments the_def : simpl never.
-Arguments String.eqb : simpl never.
 
 (* ---------------------------------------------------------------- induction on types *)
 Section ty_ind_nested.
@@ -189,9 +188,11 @@ Proof.
       (rewrite (Hs _ (occ_here _)); simpl; auto).
     all: pose proof (wfb_components _ W) as F; rewrite Forall_forall in F.
     all: apply forallb_forall; intros c Hc.
-    all: assert (HP : Forall (fun x => wfb x = true -> (forall s, occurs s x -> head_copy s = true) -> copyable x = true) (components _))
-           by (apply components_Forall; simpl; auto).
-    all: rewrite Forall_forall in HP; apply (HP c Hc (F c Hc)); intros s0 O; apply Hs; eapply occ_in; eauto.
+    + rewrite Forall_forall in H. apply (H c Hc (F c Hc)). intros s0 O. apply Hs. eapply occ_in; eauto.
+    + rewrite Forall_forall in H. apply (H c Hc (F c Hc)). intros s0 O. apply Hs. eapply occ_in; eauto.
+    + assert (HP : Forall (fun x => wfb x = true -> (forall s, occurs s x -> head_copy s = true) -> copyable x = true) (fields ++ type_args args))
+        by (apply Forall_app; auto).
+      rewrite Forall_forall in HP. apply (HP c Hc (F c Hc)). intros s0 O. apply Hs. eapply occ_in; eauto.
 Qed.
 
 Lemma droppable_leaves : forall t, wfb t = true ->
@@ -204,7 +205,317 @@ Proof.
       (rewrite (Hs _ (occ_here _)); simpl; auto).
     all: pose proof (wfb_components _ W) as F; rewrite Forall_forall in F.
     all: apply forallb_forall; intros c Hc.
-    all: assert (HP : Forall (fun x => wfb x = true -> (forall s, occurs s x -> head_drop s = true) -> droppable x = true) (components _))
-           by (apply components_Forall; simpl; auto).
-    all: rewrite Forall_forall in HP; apply (HP c Hc (F c Hc)); intros s0 O; apply Hs; eapply occ_in; eauto.
+    + rewrite Forall_forall in H. apply (H c Hc (F c Hc)). intros s0 O. apply Hs. eapply occ_in; eauto.
+    + rewrite Forall_forall in H. apply (H c Hc (F c Hc)). intros s0 O. apply Hs. eapply occ_in; eauto.
+    + assert (HP : Forall (fun x => wfb x = true -> (forall s, occurs s x -> head_drop s = true) -> droppable x = true) (fields ++ type_args args))
+        by (apply Forall_app; auto).
+      rewrite Forall_forall in HP. apply (HP c Hc (F c Hc)). intros s0 O. apply Hs. eapply occ_in; eauto.
+Qed.
+
+
+(* ---------------------------------------------------------------- Guppy-side hugr_bound *)
+Lemma base_bound : forall c d : bool,
+  (if (negb c && negb d) || (negb c && d) then Linear else Copyable) = if c then Copyable else Linear.
+Proof. destruct c, d; reflexivity. Qed.
+
+Lemma bound_join_cons : forall b bs,
+  bound_join (b :: bs) = Copyable <-> b = Copyable /\ forallb (fun x => bound_eqb x Copyable) bs = true.
+Proof.
+  intros b bs. unfold bound_join. simpl.
+  assert (E : existsb is_linear_bound bs = negb (forallb (fun x => bound_eqb x Copyable) bs)).
+  { induction bs as [|x r IH]; simpl; auto. rewrite IH. destruct x; simpl; auto. }
+  rewrite E. destruct b; simpl; destruct (forallb _ bs); simpl; split; intros; try tauto; try discriminate;
+    destruct H; try discriminate; auto.
+Qed.
+
+Lemma bounds_of_args : forall args,
+  map av_hugr_bound (filter av_is_type (map (fun a => match a with ATy t => AVType (info t) | _ => AVConst end) args))
+  = map hugr_bound (type_args args).
+Proof. induction args as [|a r IH]; simpl; auto. destruct a; simpl; auto. rewrite IH. reflexivity. Qed.
+
+Lemma bounds_of_els : forall els,
+  map av_hugr_bound (filter av_is_type (map (fun e => AVType (info e)) els)) = map hugr_bound els.
+Proof. induction els as [|a r IH]; simpl; auto. rewrite IH. reflexivity. Qed.
+
+Lemma Forall_forallb_iff : forall (f g : ty -> bool) l,
+  Forall (fun x => f x = true <-> g x = true) l -> forallb f l = forallb g l.
+Proof.
+  induction 1; simpl; auto. rewrite IHForall. destruct (f x), (g x); auto; destruct H; 
+  try (discriminate (H eq_refl)); try (discriminate (H1 eq_refl)).
+Qed.
+
+Lemma hugr_bound_matches_copyable : forall t, wfb t = true ->
+  (hugr_bound t = Copyable <-> copyable t = true).
+Proof.
+  induction t using ty_ind'; intros W; try (unfold hugr_bound, copyable; simpl; tauto).
+  - unfold hugr_bound, copyable; simpl. destruct c, d; simpl; split; auto; discriminate.
+  - (* tuple *)
+    pose proof (copyable_step _ W) as CS. simpl in CS.
+    pose proof (wfb_components _ W) as F. simpl in F.
+    unfold hugr_bound at 1. simpl. unfold gen_TupleType_hugr_bound, gen_TupleType_hugr_bound__TypeBase,
+      gen_TupleType_linear, gen_TupleType_affine.
+    rewrite base_bound, bounds_of_els, bound_join_cons.
+    change (gen_TupleType_copyable (map (fun e => AVType (info e)) els)) with (copyable (TTuple els)).
+    rewrite forallb_map.
+    assert (E : forallb (fun x => bound_eqb (hugr_bound x) Copyable) els = forallb copyable els).
+    { apply Forall_forallb_iff. rewrite Forall_forall in *. intros x Hx.
+      specialize (H x Hx (F x Hx)). destruct (hugr_bound x); simpl; split; intros; auto; try discriminate.
+      - apply H; auto. - destruct H as [_ H]. discriminate (H H0). }
+    rewrite E, CS. destruct (forallb copyable els); simpl; split; intros; try tauto; try discriminate;
+    try (destruct H0; discriminate).
+  - (* opaque *)
+    pose proof (copyable_step _ W) as CS. change (components (TOpaque n args)) with (type_args args) in CS.
+    pose proof (wfb_components _ W) as F. simpl in F.
+    destruct (wfb_known _ _ W) as [d [L D]]. destruct (known_def_rules _ _ L) as [_ [_ Hb]].
+    unfold hugr_bound at 1. simpl. rewrite D. unfold gen_OpaqueType_hugr_bound. rewrite Hb.
+    unfold gen_OpaqueType_hugr_bound__ParametrizedTypeBase, gen_OpaqueType_hugr_bound__TypeBase,
+      gen_OpaqueType_linear, gen_OpaqueType_affine.
+    assert (EC : gen_OpaqueType_copyable d (map (fun a => match a with ATy t => AVType (info t) | _ => AVConst end) args)
+                 = copyable (TOpaque n args)) by (unfold copyable; simpl; rewrite D; reflexivity).
+    rewrite base_bound, bounds_of_args, bound_join_cons, EC.
+    rewrite forallb_map.
+    assert (E : forallb (fun x => bound_eqb (hugr_bound x) Copyable) (type_args args) = forallb copyable (type_args args)).
+    { apply Forall_forallb_iff. rewrite Forall_forall in *. intros x Hx.
+      specialize (H x Hx (F x Hx)). destruct (hugr_bound x); simpl; split; intros; auto; try discriminate.
+      - apply H; auto. - destruct H as [_ H]. discriminate (H H0). }
+    rewrite E, CS. destruct (forallb copyable (type_args args)); rewrite ?andb_true_r, ?andb_false_r;
+      destruct (head_copy (TOpaque n args)); simpl; split; intros; try tauto; try discriminate;
+      try (destruct H0; discriminate).
+  - (* struct *)
+    pose proof (copyable_step _ W) as CS. simpl in CS.
+    pose proof (wfb_components _ W) as F. simpl in F. apply Forall_app in F. destruct F as [Ff Fa].
+    unfold hugr_bound at 1. simpl. unfold gen_StructType_hugr_bound, gen_StructType_hugr_bound__TypeBase,
+      gen_StructType_linear, gen_StructType_affine.
+    rewrite base_bound, bounds_of_args, bound_join_cons.
+    match goal with |- context [if ?c then Copyable else Linear] => change c with (copyable (TStruct s args fields)) end.
+    rewrite forallb_map.
+    assert (E : forallb (fun x => bound_eqb (hugr_bound x) Copyable) (type_args args) = forallb copyable (type_args args)).
+    { apply Forall_forallb_iff. rewrite Forall_forall in *. intros x Hx.
+      specialize (H x Hx (Fa x Hx)). destruct (hugr_bound x); simpl; split; intros; auto; try discriminate.
+      - apply H; auto. - destruct H as [_ H]. discriminate (H H1). }
+    rewrite E, CS, forallb_app'. destruct (forallb copyable (type_args args)); rewrite ?andb_true_r, ?andb_false_r;
+      destruct (forallb copyable fields); simpl; split; intros; try tauto; try discriminate;
+      try (destruct H1; discriminate).
+Qed.
+
+(* ---------------------------------------------------------------- HUGR side equations *)
+Lemma tb_tuple : forall hs, type_bound (h_tuple hs) = bound_join (map type_bound hs).
+Proof. intros. unfold h_tuple. simpl. rewrite app_nil_r. reflexivity. Qed.
+
+Lemma tb_option : forall h, type_bound (h_option h) = type_bound h.
+Proof. intros. unfold h_option, bound_join. simpl. destruct (type_bound h); reflexivity. Qed.
+
+Lemma tb_list : forall h, type_bound (HExt "collections.list.List" [HTy h]) = type_bound h.
+Proof. intros. unfold bound_join. simpl. destruct (type_bound h); reflexivity. Qed.
+
+Lemma tb_barray : forall a h, type_bound (HExt "collections.borrow_arr.borrow_array" [a; HTy h]) = Linear.
+Proof. reflexivity. Qed.
+
+Lemma tb_static : forall h, type_bound (HExt "collections.static_array.static_array" [HTy h]) = Copyable.
+Proof. reflexivity. Qed.
+
+Lemma rd_tuple : forall hs, requires_drop (h_tuple hs) = existsb requires_drop hs.
+Proof.
+  intros. unfold h_tuple. simpl. unfold gen_requires_drop_Sum. simpl. rewrite app_nil_r.
+  induction hs; simpl; auto. rewrite IHhs. reflexivity.
+Qed.
+
+Lemma rd_option : forall h, requires_drop (h_option h) = requires_drop h.
+Proof. intros. unfold h_option. simpl. unfold gen_requires_drop_Sum. simpl. rewrite orb_false_r. reflexivity. Qed.
+
+Lemma rd_list : forall h, requires_drop (HExt "collections.list.List" [HTy h]) = requires_drop h.
+Proof. intros. simpl. unfold gen_requires_drop_ExtType. simpl. rewrite orb_false_r. reflexivity. Qed.
+
+Lemma rd_barray : forall a h, requires_drop (HExt "collections.borrow_arr.borrow_array" [a; HTy h]) = true.
+Proof. reflexivity. Qed.
+
+Lemma rd_static : forall h, requires_drop (HExt "collections.static_array.static_array" [HTy h]) = requires_drop h.
+Proof. intros. simpl. unfold gen_requires_drop_ExtType. simpl. rewrite orb_false_r. reflexivity. Qed.
+
+(* ---------------------------------------------------------------- the translation invariant *)
+Definition Q (t : ty) (h : hty) : Prop :=
+  (type_bound h = Copyable <-> copyable t = true) /\
+  (requires_drop h = true -> copyable t = false) /\
+  (copyable t = false -> droppable t = true -> requires_drop h = true).
+
+Definition Inv (t : ty) : Prop :=
+  wfb t = true -> witnessedb t = true -> exists h, to_hugr t = Some h /\ Q t h.
+
+Lemma all_some_Forall2 : forall ts,
+  Forall (fun t => exists h, to_hugr t = Some h /\ Q t h) ts ->
+  exists hs, all_some (map to_hugr ts) = Some hs /\ Forall2 Q ts hs.
+Proof.
+  induction 1 as [|t r [h [E q]] _ [hs [Ehs F]]]; simpl.
+  - exists []. auto.
+  - rewrite E, Ehs. exists (h :: hs). auto.
+Qed.
+
+Lemma Q_bounds : forall ts hs, Forall2 Q ts hs ->
+  forallb (fun x => bound_eqb x Copyable) (map type_bound hs) = forallb copyable ts.
+Proof.
+  induction 1 as [|t h ts hs [q _] _ IH]; simpl; auto. rewrite IH.
+  destruct (type_bound h), (copyable t); simpl; auto; destruct q as [q1 q2];
+    try (discriminate (q1 eq_refl)); try (discriminate (q2 eq_refl)).
+Qed.
+
+Lemma Q_rd_sound : forall ts hs, Forall2 Q ts hs ->
+  existsb requires_drop hs = true -> forallb copyable ts = false.
+Proof.
+  induction 1 as [|t h ts hs [_ [q _]] _ IH]; simpl; intros E; [discriminate|].
+  apply orb_prop in E. destruct E as [E|E].
+  - rewrite (q E). reflexivity.
+  - rewrite (IH E). apply andb_false_r.
+Qed.
+
+Lemma Q_rd_complete : forall ts hs, Forall2 Q ts hs ->
+  forallb copyable ts = false -> forallb droppable ts = true -> existsb requires_drop hs = true.
+Proof.
+  induction 1 as [|t h ts hs [_ [_ q]] _ IH]; simpl; intros C D; [discriminate|].
+  apply andb_prop in D. destruct D as [D1 D2].
+  destruct (copyable t) eqn:Ct.
+  - simpl in C. rewrite (IH C D2). apply orb_true_r.
+  - rewrite (q eq_refl D1). reflexivity.
+Qed.
+
+Lemma join_all : forall bs, bound_join bs = Copyable <-> forallb (fun x => bound_eqb x Copyable) bs = true.
+Proof.
+  intros bs. unfold bound_join.
+  assert (E : existsb is_linear_bound bs = negb (forallb (fun x => bound_eqb x Copyable) bs)).
+  { induction bs as [|x r IH]; simpl; auto. rewrite IH. destruct x; simpl; auto. }
+  rewrite E. destruct (forallb _ bs); simpl; split; auto; discriminate.
+Qed.
+
+Lemma Q_tuple : forall t ts hs, Forall2 Q ts hs ->
+  copyable t = forallb copyable ts ->
+  (forallb copyable ts = false -> droppable t = true -> forallb droppable ts = true) ->
+  Q t (h_tuple hs).
+Proof.
+  intros t ts hs F C D. unfold Q. rewrite tb_tuple, rd_tuple, join_all, (Q_bounds _ _ F), C.
+  split; [tauto|]. split.
+  - apply (Q_rd_sound _ _ F).
+  - intros C' D'. apply (Q_rd_complete _ _ F); auto.
+Qed.
+
+Lemma wfb_args_fit : forall name args d, wfb (TOpaque name args) = true ->
+  lookup_def gen_opaque_defs name = Some d ->
+  args_fit (od_params d) (map (fun a => match a with
+                                        | ATy c => Some (copyable c, droppable c)
+                                        | _ => None end) args) = true.
+Proof.
+  intros name args d W L. simpl in W. apply andb_prop in W. destruct W as [_ W]. rewrite L in W. exact W.
+Qed.
+
+Lemma Forall_type_args_1 : forall (P : ty -> Prop) t r, Forall P (type_args (ATy t :: r)) -> P t.
+Proof. intros P t r H. simpl in H. inversion H; auto. Qed.
+
+Ltac args_shape W :=
+  repeat match type of W with
+  | args_fit _ (map _ ?a) = true =>
+      destruct a as [|[?t|?n|?i] ?r]; simpl in W; try discriminate W
+  end.
+
+Lemma Inv_opaque : forall name args, Forall Inv (type_args args) -> Inv (TOpaque name args).
+Proof.
+  intros name args IH W Wit.
+  destruct (wfb_known _ _ W) as [d [L D]].
+  pose proof (wfb_args_fit _ _ _ W L) as AF.
+  pose proof (wfb_components _ W) as WC. simpl in WC.
+  pose proof (copyable_step _ W) as CS. pose proof (droppable_step _ W) as DS.
+  assert (WitC : Forall (fun c => witnessedb c = true) (type_args args)).
+  { clear - Wit. simpl in Wit. induction args as [|a r IHr]; simpl in *; auto.
+    destruct a; simpl in *; auto. apply andb_prop in Wit. destruct Wit. constructor; auto. }
+  destruct (lookup_def_spec _ _ _ L) as [Hin Hname]. subst name.
+  simpl in Hin.
+  repeat (destruct Hin as [Hin|Hin]; [subst d; simpl in AF, CS, DS, L |- *|]); try contradiction.
+  - (* bool *) destruct args; [|discriminate AF]. simpl. rewrite ?L. simpl. eexists; split; [reflexivity|].
+    unfold Q. rewrite CS. simpl. unfold gen_requires_drop_ExtType. simpl. split; [tauto|]. split; intros; discriminate.
+  - (* str *) destruct args; [|discriminate AF]. simpl. rewrite ?L. simpl. eexists; split; [reflexivity|].
+    unfold Q. rewrite CS. simpl. unfold gen_requires_drop_ExtType. simpl. split; [tauto|]. split; intros; discriminate.
+  - (* list *)
+    destruct args as [|[t|n|i] [|a r]]; simpl in AF; try discriminate AF.
+    simpl in WC, WitC, IH. inversion WC; subst. inversion WitC; subst. inversion IH; subst.
+    destruct (H5 H1 H3) as [h [E [q1 [q2 q3]]]].
+    simpl. rewrite E, ?L. simpl. eexists; split; [reflexivity|].
+    simpl in CS, DS. rewrite andb_true_r in CS, DS. unfold Q. rewrite tb_list, rd_list, CS, DS.
+    assert (TB : forall b : bool, type_bound (if b then h_option h else h) = type_bound h)
+      by (intros []; [apply tb_option|reflexivity]).
+    assert (RD : forall b : bool, requires_drop (if b then h_option h else h) = requires_drop h)
+      by (intros []; [apply rd_option|reflexivity]).
+    rewrite TB, RD. repeat split; auto; tauto.
+  - (* array *)
+    destruct args as [|[t|n|i] [|[t'|n'|i'] [|a r]]]; simpl in AF; rewrite ?andb_false_r in AF; try discriminate AF.
+    all: simpl in WC, WitC, IH; inversion WC; subst; inversion WitC; subst; inversion IH; subst.
+    all: destruct (H5 H1 H3) as [h [E [q1 [q2 q3]]]].
+    all: simpl; rewrite E, ?L; simpl; eexists; (split; [reflexivity|]).
+    all: simpl in CS; unfold Q; rewrite tb_barray, rd_barray, CS; repeat split; auto; intros; discriminate.
+  - (* frozenarray *)
+    destruct args as [|[t|n|i] [|[t'|n'|i'] [|a r]]]; simpl in AF; rewrite ?andb_false_r in AF; try discriminate AF.
+    all: simpl in WC, WitC, IH; inversion WC; subst; inversion WitC; subst; inversion IH; subst.
+    all: destruct (H5 H1 H3) as [h [E [q1 [q2 q3]]]].
+    all: simpl; rewrite E, ?L; simpl; eexists; (split; [reflexivity|]).
+    all: simpl in CS, DS; rewrite andb_true_r in CS, DS; unfold Q; rewrite tb_static, rd_static, CS, DS.
+    all: rewrite !andb_true_r in AF; apply andb_prop in AF; destruct AF as [AF1 AF2].
+    all: rewrite AF1, AF2 in *; repeat split; auto; intros; try discriminate.
+  - (* SizedIter *)
+    destruct args as [|[t|n|i] [|[t'|n'|i'] [|a r]]]; simpl in AF; rewrite ?andb_false_r in AF; try discriminate AF.
+    all: simpl in WC, WitC, IH; inversion WC; subst; inversion WitC; subst; inversion IH; subst.
+    all: destruct (H5 H1 H3) as [h [E [q1 [q2 q3]]]].
+    all: simpl; rewrite E, ?L; simpl; eexists; (split; [reflexivity|]).
+    all: simpl in CS, DS; rewrite andb_true_r in CS, DS; unfold Q; rewrite CS, DS; repeat split; auto; tauto.
+  - (* Option *)
+    destruct args as [|[t|n|i] [|a r]]; simpl in AF; try discriminate AF.
+    simpl in WC, WitC, IH. inversion WC; subst. inversion WitC; subst. inversion IH; subst.
+    destruct (H5 H1 H3) as [h [E [q1 [q2 q3]]]].
+    simpl. rewrite E, ?L. simpl. eexists; split; [reflexivity|].
+    simpl in CS, DS. rewrite andb_true_r in CS, DS. unfold Q. rewrite tb_option, rd_option, CS, DS.
+    repeat split; auto; tauto.
+  - (* qubit *) destruct args; [|discriminate AF]. simpl. rewrite ?L. simpl. eexists; split; [reflexivity|].
+    unfold Q. rewrite CS, DS. simpl. repeat split; auto; intros; discriminate.
+Qed.
+
+Lemma Forall_Inv_apply : forall ts, Forall Inv ts ->
+  Forall (fun c => wfb c = true) ts -> Forall (fun c => witnessedb c = true) ts ->
+  Forall (fun t => exists h, to_hugr t = Some h /\ Q t h) ts.
+Proof.
+  induction 1; intros W1 W2; constructor; inversion W1; inversion W2; subst; auto.
+Qed.
+
+Lemma forallb_Forall' : forall {A} (f : A -> bool) l, forallb f l = true -> Forall (fun x => f x = true) l.
+Proof. intros. apply Forall_forall. rewrite forallb_forall in H. auto. Qed.
+
+Lemma droppable_all_of_step : forall b l, b && forallb droppable l = true -> forallb droppable l = true.
+Proof. intros. apply andb_prop in H. tauto. Qed.
+
+Lemma Inv_all : forall t, Inv t.
+Proof.
+  induction t using ty_ind'.
+  - intros _ _. eexists; split; [reflexivity|]. unfold Q. repeat split; auto; intros; discriminate.
+  - intros _ _. eexists; split; [reflexivity|]. destruct k; unfold Q; repeat split; auto; intros; discriminate.
+  - intros _ _. eexists; split; [reflexivity|]. unfold Q, copyable, droppable. simpl.
+    destruct c, d; simpl; repeat split; auto; intros; discriminate.
+  - intros _ _. eexists; split; [reflexivity|]. unfold Q. repeat split; auto; intros; discriminate.
+  - (* tuple *)
+    intros W Wit. pose proof (wfb_components _ W) as WC. simpl in WC.
+    assert (WitC : Forall (fun c => witnessedb c = true) els) by (apply forallb_Forall'; exact Wit).
+    destruct (all_some_Forall2 _ (Forall_Inv_apply _ H WC WitC)) as [hs [E F]].
+    simpl. rewrite E. simpl. eexists; split; [reflexivity|].
+    pose proof (copyable_step _ W) as CS. pose proof (droppable_step _ W) as DS. simpl in CS, DS.
+    apply (Q_tuple _ els hs F CS). intros _ D. rewrite DS in D. exact D.
+  - apply Inv_opaque; auto.
+  - (* struct *)
+    intros W Wit. pose proof (wfb_components _ W) as WC. simpl in WC. apply Forall_app in WC. destruct WC as [WCf WCa].
+    simpl in Wit. apply andb_prop in Wit. destruct Wit as [Wit Wimp]. apply andb_prop in Wit. destruct Wit as [_ Witf].
+    assert (WitC : Forall (fun c => witnessedb c = true) fields) by (apply forallb_Forall'; exact Witf).
+    destruct (all_some_Forall2 _ (Forall_Inv_apply _ H0 WCf WitC)) as [hs [E F]].
+    simpl. rewrite E. simpl. eexists; split; [reflexivity|].
+    pose proof (copyable_step _ W) as CS. pose proof (droppable_step _ W) as DS. simpl in CS, DS.
+    rewrite forallb_app' in CS, DS.
+    assert (WA : forallb copyable fields = true -> forallb copyable (type_args args) = true).
+    { intros Cf. change (forallb (fun f => ti_copyable (info f)) fields) with (forallb copyable fields) in Wimp.
+      rewrite Cf in Wimp. simpl in Wimp. clear - Wimp.
+      induction args as [|a r IH]; simpl in *; auto. destruct a; simpl in *; auto.
+      apply andb_prop in Wimp. destruct Wimp as [A B]. unfold copyable at 1. rewrite A. auto. }
+    apply (Q_tuple _ fields hs F).
+    + rewrite CS. destruct (forallb copyable fields); simpl; auto; try (rewrite WA; auto).
+    + intros _ D. rewrite DS in D. apply andb_prop in D. tauto.
 Qed.
